@@ -35,9 +35,10 @@ HELPERS = [   # (name, index i of the paths (9, i, ...), parameter, path of the 
     ("m", 4, "y", (8, 9), [_inc("x", "y", 1),
                            {"t": "for", "k": 2, "a": [_if("y", [_inc("x", "x", 1)], []), {"t": "dec", "x": "y"}]},
                            {"t": "ret", "x": "x"}]),
+    ("s", 5, "x", (8, 11), [_inc("G", "x", 1)]),      # assigns the global (rendered with `global G`)
 ]
 MODULE_KINDS = {(8, 1): "modG", (8, 2): "modBox", (8, 3): "modH", (8, 4): "modG_", (8, 5): "modF",
-                (8, 6): "clsattr", (8, 7): "clsuattr", (8, 8): "modK", (8, 9): "modM", (8, 10): "clstail"}
+                (8, 6): "clsattr", (8, 7): "clsuattr", (8, 8): "modK", (8, 9): "modM", (8, 10): "clstail", (8, 11): "modS"}
 BOX_VARS = ("o", "p")
 ATTR_NAMES = ("q0", "q1", "_q2", "c3", "_c4")      # c3, _c4: class level (values 2, 3)
 INNER_PARAM = "z"
@@ -139,6 +140,8 @@ def render(prog: list) -> tuple[str, dict, dict]:
     gap()
     for name, idx, param, defpath, body in HELPERS:
         emit(f"def {name}({param}):", 0, defpath, MODULE_KINDS[defpath])
+        if name == "s":
+            emit("global G", 1, None)
         block(body, (9, idx), 0, 1, name + ".")
         gap()
     emit("def f(a, b):", 0, (8, 5), MODULE_KINDS[8, 5])
